@@ -38,10 +38,10 @@ class Stub:
     """assumed-contract stand-in for an external / library-algorithm function cut out of the closure.
     record: [(ghost name, parameter index, C++ record name or None)] -- ghost copies of the arguments (pointers to structs are copied by value)
     ret: name of a non-deterministic ghost returned (or None for void);  count: ghost call counter;  body: extra C statements"""
-    def __init__(s, fn_re, record=(), ret=None, count=None, body='', only_first=False, decl='', ghosts=(), optional=False):
+    def __init__(s, fn_re, record=(), ret=None, count=None, body='', only_first=False, decl='', ghosts=(), optional=False, absent=''):
         s.fn_re = fn_re; s.record = list(record); s.ret = ret; s.count = count; s.body = body; s.only_first = only_first
         s.decl = decl; s.ghosts = list(ghosts)   # extra C declarations / names of extra ghost objects the body writes (added to the assigns clause)
-        s.optional = optional
+        s.optional = optional; s.absent = absent   # absent: C declarations of the record ghosts to emit when an optional stub's function does not occur in the tree
 
 class Check:
     def __init__(s, id, props, group, params, wrapper, fn=None, cxx=None, ghosts=(), requires=(), lemmas=(), ensures=(),
@@ -160,7 +160,10 @@ class Inst:
                             m2 = list(re.finditer(r' #\d+', ln))
                             if m2: lines[i] = ln[:m2[-1].start()] + ' noinline' + ln[m2[-1].start():]
                 open(ll, 'w').write('\n'.join(lines))
-            rc, out, err, _ = run([OPT, '-S', '-passes=default<O1>', ll, '-o', ll2], timeout=900)
+            # profile I: inlining + scalar replacement + common-subexpression elimination only -- no instcombine / reassociate, so products keep the
+            # operand order and association of the source (matters for UF-64 proofs, where * is uninterpreted up to the listed lemma instances)
+            passes = 'default<O1>' if s.group.profile == 'O' else 'cgscc(inline),function(sroa,early-cse,simplifycfg,dce),globaldce'
+            rc, out, err, _ = run([OPT, '-S', '-passes=' + passes, ll, '-o', ll2], timeout=900)
         if rc != 0: raise Broken('opt failed: ' + err[-2000:])
         ll = ll2
         s.module = ll2c.parse_module(open(ll).read())
@@ -314,13 +317,16 @@ class Runner:
         fn = inst.find(check); f = m.funcs[fn]
         arith = 'exact' if mode == 'exact' else ('uf' if mode == 'uf' else 'narrow')
         # assumed-contract stubs: the named functions are cut out of the closure and replaced by recording stand-ins
-        stubfns = []
+        stubfns = []; absent_counts = []; absent_decls = []   # call counters of optional stubs whose function does not occur in this tree: constant 0
         for st in check.stubs:
             r = re.compile(st.fn_re); hits = sorted(n for n, d in inst.dem.items() if r.fullmatch(d))
             if not hits:      # external function (declaration only): match the symbol or its demangled form
                 dn = list(m.decls); dd = demangle([n[1:].strip('"') for n in dn])
                 hits = sorted(n for n, d_ in zip(dn, dd) if r.fullmatch(n[1:]) or r.fullmatch(d_))
-            if not hits and st.optional: continue
+            if not hits and st.optional:
+                if st.count: absent_counts.append(st.count)
+                if st.absent: absent_decls.append(st.absent)
+                continue
             if not hits: raise Broken('check %s: stub pattern %s matches no function of the IR (inlined away / renamed?)' % (check.id, st.fn_re))
             if len(hits) > 1 and not st.only_first: raise Broken('check %s: stub pattern %s matches %d functions: %s' % (check.id, st.fn_re, len(hits), [inst.dem[h] for h in hits][:4]))
             stubfns.append((st, hits[0]))
@@ -341,7 +347,8 @@ class Runner:
                 if rec: b.extra_cxx[gname] = rec
             stub_types += [t.to for t in sps if isinstance(t, Ptr) and isinstance(t.to, (Named, Lit))]
         def stub_code(g_):
-            out = []
+            out = ['int %s;' % c for c in absent_counts] + absent_decls
+            for c in absent_counts: stub_ghosts.append(('int', c, '0'))
             for st, n in stubfns:
                 sps, sret, sbyval = sparams(n); ps = []; body = []
                 for i, t in enumerate(sps):
@@ -540,11 +547,11 @@ class Runner:
         elif not check.loops: cb += ['--unwind', '7', '--unwinding-assertions']     # contracts without loop invariants cover loop-free code (and loops bounded by the constant D <= 6) only
         if check.objbits: cb += ['--object-bits', str(check.objbits)]
         cb += check.cbmc_flags
-        r.cmd = ' '.join(['goto-cc --function harness check.c -o a.gb', '&&'] + cmd[:-2] + ['a.gb b.gb', '&&'] + ['cbmc b.gb [--sat-solver cadical | default minisat: first to finish]'] + cb[2:])
-        solver_flags = {'cadical': ['--sat-solver', 'cadical'], 'minisat': []}
+        r.cmd = ' '.join(['goto-cc --function harness check.c -o a.gb', '&&'] + cmd[:-2] + ['a.gb b.gb', '&&'] + ['cbmc b.gb [portfolio %s: first to finish]' % '|'.join(check.solvers)] + cb[2:])
+        solver_flags = {'cadical': ['--sat-solver', 'cadical'], 'minisat': [], 'cvc5': ['--cvc5'], 'z3': ['--z3']}
         rc, out, err, dt, won = run_portfolio([cb + solver_flags[sv] for sv in check.solvers], timeout=check.timeout, mem_kb=CBMC_MEM_KB)
         r.time = time.time() - t0
-        r.solver = 'minisat' if won is not None and '--sat-solver' not in won else 'cadical'
+        r.solver = 'minisat' if won is None else ('cvc5' if '--cvc5' in won else 'z3' if '--z3' in won else 'cadical' if '--sat-solver' in won else 'minisat')
         if rc == 124:
             r.status = 'timeout'; r.reason = 'cbmc exceeded %ds' % check.timeout; return r
         try:
@@ -558,9 +565,11 @@ class Runner:
                 r.reason += item.get('messageText', '') + ' '
         if results is None:
             r.status = 'broken'; r.reason = 'cbmc produced no result: ' + r.reason + out[-600:]; return r
-        bad_status = sorted({pr.get('status', '?') for pr in results} - {'SUCCESS', 'FAILURE'})
-        if bad_status:
-            r.status = 'broken'; r.reason = 'cbmc left properties undecided (status %s): %s' % (bad_status, r.reason[:300]); return r
+        undec = [pr for pr in results if pr.get('status') not in ('SUCCESS', 'FAILURE')]
+        real_fail = [pr for pr in results if pr.get('status') == 'FAILURE' and not pr.get('description', '').startswith(('CANARY', 'COVER')) and '.unwind.' not in pr.get('property', '')]
+        if undec and not real_fail:   # a FAILURE carries its own counterexample and stays sound; without one, undecided properties mean no verdict
+            r.status = 'broken'; r.reason = 'cbmc left properties undecided (status %s): %s' % (sorted({pr.get('status', '?') for pr in undec}), r.reason[:300]); return r
+        results = [pr for pr in results if pr.get('status') in ('SUCCESS', 'FAILURE')]   # CBMC leaves properties downstream of a failed assertion UNKNOWN
         for pr in results:
             name = pr.get('property', ''); desc = pr.get('description', ''); st = pr.get('status', '')
             loc = pr.get('sourceLocation', {}) or {}
